@@ -19,7 +19,9 @@ extern "C" {
 
 namespace {
 
-enum { OP_SPEC = 1, OP_LAUNCH, OP_JOIN, OP_JOIN_ALL, OP_SET_TIMEOUT, OP_SLEEP, OP_YIELD, OP_ATEXIT, OP_ATEXIT_MAIN, OP_COUNT_QUERY, OP_DETACH, OP_CALL_ONCE, OP_LIB_REINIT, OP_EXT_PARTICIPATE };
+enum { OP_SPEC = 1, OP_LAUNCH, OP_JOIN, OP_JOIN_ALL, OP_SET_TIMEOUT, OP_SLEEP, OP_YIELD, OP_ATEXIT, OP_ATEXIT_MAIN, OP_COUNT_QUERY, OP_DETACH, OP_CALL_ONCE, OP_LIB_REINIT, OP_EXT_PARTICIPATE, OP_SELF_JOIN };
+// OP_SELF_JOIN: a joinable thread calls aws_thread_join on its own handle (documented outcome: AWS_ERROR_THREAD_DEADLOCK_DETECTED); the
+// thread stays joinable and the owner's later join must still wait for it
 // OP_EXT_PARTICIPATE: a = virtual ns between the two calls: aws_thread_increment_unjoined_count(); ...; aws_thread_decrement_unjoined_count()
 // OP_CALL_ONCE: a = flag (0..2), b = the once-function registers an at-exit callback on the thread it runs on
 static const int MAXT = 12;
@@ -55,6 +57,7 @@ struct Ctx {
     // join_all bookkeeping
     std::map<int, std::vector<uint64_t>> ja_reads; // per calling simulated thread: wall-clock reads made inside its join_all call
     int main_tid = 0;
+    int self_join_in_progress = 0; // OP_SELF_JOIN calls under way (the OS-level EDEADLK is expected then)
     bool small_default_stack = false; // the simulated system hands out 128 KiB stacks by default
     uint64_t timeout_ns = 0;
     struct Ext { uint64_t inc_done_seq; bool dec_invoked; }; // a thread the library does not manage takes part in the unjoined count (public API)
@@ -421,6 +424,19 @@ void body(Ctx &c, int id) {
                 }
                 break;
             case OP_COUNT_QUERY: (void)aws_thread_get_managed_thread_count(); break;
+            case OP_SELF_JOIN: {
+                TRec &me = c.t[id];
+                // the handle is the launcher's object: only once aws_thread_launch has returned, and not after the owner gave it up
+                if (id == 0 || me.managed || !me.launch_returned || me.detached) { sim::probe("self_join_skipped"); break; }
+                c.self_join_in_progress++;
+                int rc = aws_thread_join(&me.thread);
+                int err = rc ? aws_last_error() : 0;
+                c.self_join_in_progress--;
+                sim::probe("self_join_attempted");
+                if (rc == AWS_OP_SUCCESS) sim::violation("c20:self-join", "thread %d: aws_thread_join on its own handle reported success", id);
+                if (err != AWS_ERROR_THREAD_DEADLOCK_DETECTED) sim::violation("c20:self-join", "thread %d: joining itself gave error %d, documented is AWS_ERROR_THREAD_DEADLOCK_DETECTED", id, err);
+                break;
+            }
             case OP_LIB_REINIT:
                 // a second library lifetime in the same process: clean-up (which joins the managed threads, within the timeout if one
                 // is set) followed by init. Managed threads that outlive a timed-out clean-up are still owed their join afterwards.
@@ -464,6 +480,7 @@ void observer(const sim::Event &ev, void *ud) {
     Ctx &c = *(Ctx *)ud;
     if (ev.kind == sim::PK_CLOCK_READ) { auto it = c.ja_reads.find(ev.tid); if (it != c.ja_reads.end()) it->second.push_back((uint64_t)ev.result); }
     if (ev.kind == sim::PK_THREAD_JOIN && ev.result != 0) {
+        if (ev.result == -EDEADLK && c.self_join_in_progress) return; // OP_SELF_JOIN: the expected refusal
         if (ev.result < 0)
             sim::violation("c20:bad-join", "an OS-level join by T%d failed with errno %lld (self-join, double join or unknown thread)", ev.tid, (long long)-ev.result);
         auto it = c.by_tid.find((int)ev.result);
@@ -595,6 +612,7 @@ void gen(uint64_t seed, int tier, sim::Plan &p) {
             else { o.kind = OP_EXT_PARTICIPATE; o.a = r.pick(std::vector<int64_t>{0, 1000, 1000000, 50000000}); }
             p.ops.push_back(o);
         }
+        if (t <= nmanual && r.chance(0.06)) { sim::Op o; o.thr = t; o.kind = OP_SELF_JOIN; p.ops.push_back(o); if (r.chance(0.5)) { sim::Op s; s.thr = t; s.kind = OP_SLEEP; s.a = r.pick(std::vector<int64_t>{1000, 1000000, 50000000}); p.ops.push_back(s); } }
         if (t <= nmanual && extra_callers < max_extra_callers && r.chance(0.3)) { extra_callers++; sim::Op j; j.thr = t; j.kind = OP_JOIN_ALL; p.ops.push_back(j); } // concurrent join-all callers
     };
     for (int t = 1; t <= total; t++) {
@@ -667,6 +685,7 @@ std::string op_text(const sim::Op &op) {
         case OP_ATEXIT: snprintf(b, sizeof b, "thread %d: aws_thread_current_at_exit(next tag)%s%s", op.thr, op.a ? " [its callback registers one more callback]" : "", op.b % 4 ? " [the identical registration is repeated]" : ""); break;
         case OP_ATEXIT_MAIN: snprintf(b, sizeof b, "main: aws_thread_current_at_exit (must be refused: not an aws thread)"); break;
         case OP_COUNT_QUERY: snprintf(b, sizeof b, "thread %d: aws_thread_get_managed_thread_count()", op.thr); break;
+        case OP_SELF_JOIN: snprintf(b, sizeof b, "thread %d: aws_thread_join(its own handle) (must be refused: deadlock detected)", op.thr); break;
         case OP_EXT_PARTICIPATE: snprintf(b, sizeof b, "thread %d: aws_thread_increment_unjoined_count(); %lld ns; aws_thread_decrement_unjoined_count()", op.thr, (long long)op.a); break;
         case OP_LIB_REINIT: snprintf(b, sizeof b, "main: aws_common_library_clean_up(); aws_common_library_init()"); break;
         case OP_CALL_ONCE: snprintf(b, sizeof b, "thread %d: aws_thread_call_once(flag %lld)%s", op.thr, (long long)(op.a % 3), op.b ? " [the function registers an at-exit callback]" : ""); break;
@@ -680,7 +699,7 @@ std::string op_text(const sim::Op &op) {
 extern const Harness H_C20 = {
     "C20", "threads run once, run their exit callbacks, and managed threads all get joined", gen, run, op_text,
     "Plans: 0-3 joinable and 0-6 managed threads with generated options (NULL, name, cpu_id, stack sizes), launched by main or by other "
-    "threads (managed and joinable), bodies with yields, virtual sleeps and 0-4 at-exit registrations; main joins the joinable threads in "
+    "threads (managed and joinable), bodies with yields, virtual sleeps, 0-4 at-exit registrations and (6%) a join of the thread's own handle; main joins the joinable threads in "
     "generated order and calls aws_thread_join_all_managed before, while and after managed threads finish, sometimes with a join timeout; "
     "faults: preemption at every lock/cond/create/join, spurious wake-ups, stalls, REALTIME steps, pthread_create failing with "
     "EAGAIN/ENOMEM/EPERM/EINVAL, pthread_attr_setaffinity_np failing (unpinned retry); in 20% of the plans the simulated system's default "
